@@ -1,18 +1,42 @@
 /-
 Property C05 — counted links must agree; the summary link reports the chain's endpoints.
-Model: InToto/Model/Verify.lean (`reduceStep`, summary construction in `verifyAux`).
-(Interim: the unbounded theorems are being proved, see /verif/wip/PipeThresholds.lean.)
+
+ONLY property theorems live here (helper lemmas: InToto/Proofs/PipeThresholds.lean).
+Model: InToto/Model/Verify.lean (`reduceStep`; in `verifyAux` the map given to the rule interpreter
+and to the summary is built from `reduceStep` of exactly the counted links after sublayout
+resolution).
 -/
-import InToto.Model.Verify
+import InToto.Proofs.PipeThresholds
 
 namespace InToto.C05
-open InToto InToto.Verify
+open InToto InToto.Verify InToto.PipeProofs
+
+/-- C05: reduction succeeds only if ALL counted links report the materials and products of the
+    reduced link (the one the rules and the summary then use). -/
+theorem reduced_is_agreed (links : List (Str × LinkView)) (r : LinkView) (h : reduceStep links = .ok r) :
+    links ≠ [] ∧ ∀ kv ∈ links, kv.2.materials = r.materials ∧ kv.2.products = r.products :=
+  reduceStep_ok links r h
+
+/-- C05: any two counted links that differ in materials or products fail the verification. -/
+theorem disagreement_fails (links : List (Str × LinkView)) (a b : Str × LinkView)
+    (ha : a ∈ links) (hb : b ∈ links)
+    (hd : a.2.materials ≠ b.2.materials ∨ a.2.products ≠ b.2.products) :
+    (reduceStep links).isOk = false :=
+  reduceStep_disagree links a b ha hb hd
+
+/-- C05 (and C10): which link serves as reference does not matter — verdict and agreed artifacts are
+    invariant under any reordering of the counted links. -/
+theorem reference_irrelevant (l₁ l₂ : List (Str × LinkView)) (hp : l₁.Perm l₂) :
+    (reduceStep l₁).isOk = (reduceStep l₂).isOk ∧
+    ∀ r₁ r₂, reduceStep l₁ = .ok r₁ → reduceStep l₂ = .ok r₂ →
+      r₁.materials = r₂.materials ∧ r₁.products = r₂.products :=
+  reduceStep_perm l₁ l₂ hp
 
 /-- one counted link: nothing to compare, it is the reduced link -/
 theorem single_link (k : Str) (lv : LinkView) : reduceStep [(k, lv)] = .ok lv := by
   simp [reduceStep]
 
-/-- two counted links with different products: reduction fails -/
+/-- two counted links with different products: reduction fails, in either order -/
 theorem differing_products_example :
     let a : LinkView := { typ := lit% "link", name := lit% "s", materials := some [], products := some [(lit% "f", some [(lit% "sha256", lit% "aa")])] }
     let b : LinkView := { a with products := some [(lit% "f", some [(lit% "sha256", lit% "bb")])] }
